@@ -342,24 +342,66 @@ Section AllFacts.
     Lemma resolves_end_lt d span end_ b : resolves_end d span end_ b -> (b < length span)%nat.
     Proof. destruct end_; cbn; [intros H; apply nth_error_Some; congruence|lia]. Qed.
 
+    (* since fix 7cd6323 only a label GIVEN by the caller is looked up: it must resolve to its position; a default needs nothing *)
+    Definition given_ok (x : option L) (pos : nat) : Prop :=
+      match x with Some l => locate l = LInt (Z.of_nat pos) | None => True end.
+
+    Lemma iter_periods_given d span start end_ a b :
+      given_ok start a -> given_ok end_ b -> resolves_start d span start a -> resolves_end d span end_ b ->
+      iter_periods_M d span start end_ = Ret ((S b - a)%nat, periods span a b).
+    Proof.
+      intros Gs Ge Hs He. pose proof (resolves_start_lt _ _ _ _ Hs) as Ha. pose proof (resolves_end_lt _ _ _ _ He) as Hb.
+      unfold SolveAll.iter_periods_M.
+      replace (length span =? 0)%nat with false by (symmetry; apply Nat.eqb_neq; lia).
+      assert (H1 : match start with
+                   | None => if (length span <=? lags d)%nat then inr IndexError else inl (LInt (Z.of_nat (lags d)))
+                   | Some x => match locate x with LFail => inr KeyError | r => inl r end
+                   end = inl (LInt (Z.of_nat a))).
+      { destruct start as [x|]; cbn in Hs, Gs.
+        - rewrite Gs. reflexivity.
+        - destruct Hs as [-> Hlt]. replace (length span <=? lags d)%nat with false by (symmetry; apply Nat.leb_gt; exact Hlt). reflexivity. }
+      assert (H2 : match end_ with
+                   | None => if Z.of_nat (length span) - 1 - Z.of_nat (leads d) <? 0 then inr IndexError
+                             else inl (LInt (Z.of_nat (length span) - 1 - Z.of_nat (leads d)))
+                   | Some y => match locate y with LFail => inr KeyError | r => inl r end
+                   end = inl (LInt (Z.of_nat b))).
+      { destruct end_ as [y|]; cbn in He, Ge.
+        - rewrite Ge. reflexivity.
+        - replace (Z.of_nat (length span) - 1 - Z.of_nat (leads d)) with (Z.of_nat b) by lia.
+          replace (Z.of_nat b <? 0) with false by lia. reflexivity. }
+      cbv zeta. rewrite H1, H2.
+      rewrite py_range_nat, py_slice_nat by lia. rewrite map_length, seq_length. reflexivity.
+    Qed.
+
+    Lemma locate_ok_given span x pos : locate_ok span -> (match x with Some l => nth_error span pos = Some l | None => True end) ->
+      given_ok x pos.
+    Proof. intros Hok H. destruct x as [l|]; cbn; [exact (Hok pos l H)|exact I]. Qed.
+
     Lemma iter_periods_resolved d span start end_ a b :
       locate_ok span -> resolves_start d span start a -> resolves_end d span end_ b ->
       iter_periods_M d span start end_ = Ret ((S b - a)%nat, periods span a b).
     Proof.
-      intros Hok Hs He. pose proof (resolves_start_lt _ _ _ _ Hs) as Ha. pose proof (resolves_end_lt _ _ _ _ He) as Hb.
-      unfold SolveAll.iter_periods_M.
-      replace (length span =? 0)%nat with false by (symmetry; apply Nat.eqb_neq; lia).
-      destruct (nth_error span a) as [xs|] eqn:Exs; [|apply nth_error_None in Exs; lia].
-      destruct (nth_error span b) as [xe|] eqn:Exe; [|apply nth_error_None in Exe; lia].
-      assert (H1 : match start with Some x => Some x | None => py_get span (Z.of_nat (lags d)) end = Some xs).
-      { destruct start as [x|]; cbn in Hs; [congruence|]. destruct Hs as [-> _].
-        unfold py_get. rewrite py_pos_nonneg by lia. rewrite Nat2Z.id. exact Exs. }
-      assert (H2 : match end_ with Some x => Some x | None => py_get span (-1 - Z.of_nat (leads d)) end = Some xe).
-      { destruct end_ as [x|]; cbn in He; [congruence|].
-        unfold py_get. rewrite py_pos_neg by lia.
-        replace (Z.to_nat (-1 - Z.of_nat (leads d) + Z.of_nat (length span))) with b by lia. exact Exe. }
-      rewrite H1, H2, (Hok a xs Exs), (Hok b xe Exe).
-      rewrite py_range_nat, py_slice_nat by lia. rewrite map_length, seq_length. reflexivity.
+      intros Hok Hs He. apply iter_periods_given; [| |exact Hs|exact He].
+      - apply (locate_ok_given span start a Hok). destruct start; cbn in Hs; [exact Hs|exact I].
+      - apply (locate_ok_given span end_ b Hok). destruct end_; cbn in He; [exact He|exact I].
+    Qed.
+
+    (* solve(start, end) = the fold over positions a..b as soon as the labels the caller GAVE resolve to a / b; defaults are
+       positions and need no lookup at all *)
+    Theorem solve_eq_fold_given d o span start end_ s a b :
+      min_iter o <= max_iter o -> given_ok start a -> given_ok end_ b ->
+      resolves_start d span start a -> resolves_end d span end_ b ->
+      solve_M d o span start end_ s =
+      match run_periods d o (periods span a b) s [] with
+      | (s', Ret vs) => (s', Ret (mkRes (S b - a) vs))
+      | (s', Raise e) => (s', Raise e)
+      end.
+    Proof.
+      intros Hmm Gs Ge Hs He. unfold SolveAll.solve_M.
+      replace (max_iter o <? min_iter o) with false by lia.
+      assert (B1 : bad_label L locate start = false) by (destruct start as [x|]; [cbn in Gs; cbn; rewrite Gs; reflexivity|reflexivity]).
+      assert (B2 : bad_label L locate end_ = false) by (destruct end_ as [x|]; [cbn in Ge; cbn; rewrite Ge; reflexivity|reflexivity]).
+      rewrite B1, B2, (iter_periods_given d span start end_ a b Gs Ge Hs He). reflexivity.
     Qed.
 
     (* solve() = the fold of solve_t over every position from `start` to `end` inclusive, in span order *)
